@@ -51,17 +51,42 @@ Definition judge_reads (sc : scenario) (f : frame_in) (before o : out) : list (Z
         end) (ab_inputs ab)) (merged_actions spec)
     else []) (s_cfg sc).
 
-Fixpoint judge_steps (sc : scenario) (before : out) (steps : list step) (outs : list out) : list (Z * bool) :=
+(* every exclusive instance follows the configuration of ITS entity from the moment it is built (insertion or
+   rebuild): an action driven by one scripted explicit condition alone is in the state its own script says for the
+   instance's age (number of evaluations since it was built) *)
+Definition built_here (c e : Z) (o : out) : bool := existsb (fun p => Z.eqb (fst p) c && Z.eqb (snd p) e) (x_built o).
+Definition judge_own_script (sc : scenario) (is_fr : bool) (ages : list Z) (before o : out) : list (Z * bool) * list Z :=
+  let r := map (fun xa =>
+    let '((c, e, spec), age) := xa in
+    if ctx_shared c then ([], age) else
+    let evaluated := is_fr && got_of c e before in
+    let chk := if evaluated then
+                 flat_map (fun a => match a_mods a, a_conds a, a_binds a with
+                                    | [], [(_, CScript KExplicit rs)], [] =>
+                                        match snap_of_entry c e (a_id a) (x_snaps o) with
+                                        | Some s => if built_here c e o then [] else [(5, state_eqb (sn_state s) (nth (Z.to_nat age) rs SNone))]
+                                        | None => []
+                                        end
+                                    | _, _, _ => []
+                                    end) (i_actions spec)
+               else [] in
+    (chk, if built_here c e o then 0 else if evaluated then age + 1 else age)) (combine (s_cfg sc) ages) in
+  (flat_map fst r, map snd r).
+
+Fixpoint judge_steps (sc : scenario) (ages : list Z) (before : out) (steps : list step) (outs : list out) : list (Z * bool) :=
   match steps, outs with
   | SFrame f :: steps', o :: outs' =>
-      (8, negb (x_panicked o)) :: (match f_ops f with [] => judge_frame sc before o | _ => [] end) ++ judge_reads sc f before o ++ judge_steps sc o steps' outs'
-  | SOp _ :: steps', o :: outs' => (8, negb (x_panicked o)) :: judge_steps sc o steps' outs'
+      let '(chk, ages') := judge_own_script sc true ages before o in
+      (8, negb (x_panicked o)) :: (match f_ops f with [] => judge_frame sc before o | _ => [] end) ++ judge_reads sc f before o ++ chk ++ judge_steps sc ages' o steps' outs'
+  | SOp _ :: steps', o :: outs' =>
+      let '(_, ages') := judge_own_script sc false ages before o in
+      (8, negb (x_panicked o)) :: judge_steps sc ages' o steps' outs'
   | [], [] => []
   | _, _ => [(9, false)]
   end.
 Definition ok (p : scenario * trace_t) : Z :=
   match p with
-  | (sc, trace outs) => first_fail (judge_steps sc (mkOut [] [] [] [] [] [] [] true true false) (s_steps sc) outs)
+  | (sc, trace outs) => first_fail (judge_steps sc (map (fun _ => 0) (s_cfg sc)) (mkOut [] [] [] [] [] [] [] true true false) (s_steps sc) outs)
   | (_, panic) => 10
   end.
 Definition bad_agree := bad agree_full.
